@@ -143,10 +143,13 @@ type wsTran int
 
 func (w *wsPipe) Recv() (*mangos.Message, error) {
 
-	// We ignore the message type for receive.
-	_, body, err := w.ws.ReadMessage()
+	// SP messages travel in binary frames only.
+	mtype, body, err := w.ws.ReadMessage()
 	if err != nil {
 		return nil, err
+	}
+	if mtype != w.dtype {
+		return nil, mangos.ErrBadHeader
 	}
 	msg := mangos.NewMessage(0)
 	msg.Body = body
